@@ -289,6 +289,32 @@ def run(ctx):
             cases.append(("fault:type", Hdr(h.be, r.choice([0, 5, 6, 255, r.randrange(5, 256)]), h.flags, h.blen, h.serial, f), False))
         elif k == 9:
             cases.append(("fault:serial-0", Hdr(h.be, h.typ, h.flags, h.blen, 0, f), False))
+    # several unknown fields in one header, also with the SAME unknown code twice: "no field occurs twice" is read as a rule
+    # about the fields the specification defines (codes 1..9); unknown codes are skipped one by one, repeated or not
+    for idx in range(nvalid // 4):
+        h = gen_header(r, idx)
+        f = list(h.fields)
+        us = [unknown_field(r) for _ in range(r.choice([2, 2, 3, 4]))]
+        if r.random() < 0.5:
+            us[1].code = us[0].code
+        for u in us:
+            f.insert(r.randrange(len(f) + 1), u)
+        cases.append(("unknown-several" + ("-same-code" if us[1].code == us[0].code else ""), Hdr(h.be, h.typ, h.flags, h.blen, h.serial, f), True))
+    # a name that is valid for ANOTHER kind of field but not for its own, for each of the six name-carrying fields: a decoder
+    # that runs the wrong validator on a field accepts one of these (or rejects a valid header above)
+    CROSS = {1: ["a.b", "Member", ":1.5", "a-b.c"],                    # interface / member / unique name / bus name as PATH
+             2: [":1.5", "a-b.c", "Member", "/a/b"],                   # bus names, member, path as INTERFACE
+             3: ["a.b", ":1.5", "a-b.c", "/a"],                        # interface, bus names, path as MEMBER
+             4: [":1.5", "a-b.c", "Member", "/a/b"],                   # ... as ERROR_NAME
+             6: ["Member", "/a/b", "_x"],                              # member, path as DESTINATION
+             7: ["Member", "/a/b", "_x"]}                              # member, path as SENDER
+    for code, names in CROSS.items():
+        for nm in names:
+            for rep in range(2 if thorough else 1):
+                h = gen_header(r, r.randrange(1 << 20))
+                f = [x for x in h.fields if x.code != code]
+                f.insert(r.randrange(len(f) + 1), known_field(code, nm))
+                cases.append(("fault:cross-kind-name:%d" % code, Hdr(h.be, h.typ, h.flags, h.blen, h.serial, f), False))
     # wrong variant type although the value's TEXT / NUMBER is valid for the field, for every code: only the type is at fault
     def retyped(code, val):
         """fields with code `code` carrying the valid value `val` under every wrong type that can hold it"""
@@ -504,12 +530,17 @@ def run(ctx):
         for hfl in ((1 << 26) - 8, (1 << 26) - 1, 1 << 26, (1 << 26) + 1, (1 << 26) + 8, 1 << 27):
             for blen in (0, 8, 1000):
                 nl.append("n " + hx((b"B" if be else b"l") + bytes([1, 0, 1]) + u(blen) + u(7) + u(hfl)))
+    # the same with 17..40 bytes buffered (a second read_once): the result only depends on the first 16 bytes
+    for kind, b, nf, h, V in r2.sample(pool, min(len(pool), 1500 if thorough else 300)):
+        if len(b) >= 18:
+            nl.append("n2 " + hx(b[:r2.randrange(17, min(41, len(b) + 1))]))
     ni = run_sharded(exe, nl, "harness", per=60)
-    nm = run_sharded(drv, nl, "driver")
+    nm = run_sharded(drv, ["n " + l.split(" ")[1] for l in nl], "driver")
     for l, oi, om in zip(nl, ni, nm):
-        b = bytes.fromhex(l[2:]) if l[2:] != "-" else b""
+        hb_ = l.split(" ")[1]
+        b = bytes.fromhex(hb_) if hb_ != "-" else b""
         ctx.case(l, nontrivial=len(b) >= 16)
-        ctx.count("needed:" + ("err" if oi == "N:err" else "ok"))
+        ctx.count(("needed:" if l.startswith("n ") else "needed-17..40-buffered:") + ("err" if oi == "N:err" else "ok"))
         want = "N:" + spec_needed(b)
         if not oi.startswith("N:"):
             ctx.disagreements_checked += 1
@@ -597,23 +628,27 @@ def run(ctx):
         "this run (%s sizes): %d valid headers = random message type, the fields it requires plus a random subset of the others with "
         "valid values in random order, flags cycling through 0..255 in both byte orders, ENCODED BY THE EXTRACTED SPECIFICATION; "
         "%d headers with an unknown field (codes 10..255, values of generated signatures up to depth 3): at EVERY position for every 8th "
-        "valid header, at one random position for the others; %d headers with a variant chain around the nesting limit; specification-level "
+        "valid header, at one random position for the others; %d headers with 2..4 unknown fields, half of them repeating an unknown "
+        "code (accepted by code and specification: only the codes the specification defines may not occur twice); %d headers with a "
+        "name that is valid for another kind of field but not its own (each of the six name-carrying fields); %d headers with a variant chain around the nesting limit; "
+        "specification-level "
         "faults, one class per valid header in rotation (%d: duplicate, missing required, wrong type, bad text, reply serial 0, code 0, type, "
         "serial 0, invalid value inside an unknown field) plus %d wrong-type faults whose value is VALID for the field (every code 1..9, "
         "every type that can hold the value); byte-level faults on valid headers (%d; 4 of the 13 classes per header in the quick sizes, "
         "all in the thorough sizes: endianness, version, type byte, serial bytes, padding before the body, field array length +-k and "
         "huge, truncation, body length, trailing bytes, one random byte) plus %d non-zero paddings between fields and %d variant "
         "signatures with zero or two complete types; %d random byte strings; %d inputs through RecvConn::get_next_message on a real "
-        "connection; %d bytes_needed observations on a real RecvConn incl. the exact 2^26 / 2^27 limits; 2 headers with a 64 MiB field "
+        "connection; %d bytes_needed observations on a real RecvConn with 16 bytes buffered and %d with 17..40 bytes buffered, incl. the exact 2^26 / 2^27 limits; 2 headers with a 64 MiB field "
         "array. A case is non-trivial when the input is at least 16 bytes long; distinct = distinct byte strings / lines" % (
-            "thorough" if thorough else "quick", hg.get("valid", 0), tot("unknown@"), hg.get("unknown-depth", 0),
+            "thorough" if thorough else "quick", hg.get("valid", 0), tot("unknown@"), tot("unknown-several"), tot("fault:cross-kind-name"),
+            hg.get("unknown-depth", 0),
             sum(hg.get(k, 0) for k in ("fault:duplicate", "fault:missing-required", "fault:wrong-type", "fault:bad-text", "fault:reply-serial-0",
                                        "fault:code-0", "fault:type", "fault:serial-0", "unknown-maybe-bad")),
             tot("fault:wrong-type-valid-text"),
             sum(v for k, v in hg.items() if k.startswith("fault:") and k.split(":")[1].split("+")[0].split("-")[0] in
                 ("endianness", "version", "type", "serial", "padding", "hfl", "truncated", "body", "random") and k not in
                 ("fault:type", "fault:serial-0", "fault:padding-between-fields")) + hg.get("extra-trailing-bytes", 0),
-            hg.get("fault:padding-between-fields", 0), tot("fault:signature-"), hg.get("random", 0), tot("get_next_message:"), tot("needed:")))
+            hg.get("fault:padding-between-fields", 0), tot("fault:signature-"), hg.get("random", 0), tot("get_next_message:"), tot("needed:"), tot("needed-17")))
 
 
 def replay(ctx, body):
